@@ -58,6 +58,11 @@ def ev(v, env, n):
         return ("Some", ev(v[3][0][1], env, n))
     if t == "tuple":
         return tuple(ev(x, env, n) for x in v[1])
+    if t == "field" and v[2] == "0" and strip(v[1])[0] == "downcast" and strip(v[1])[2] == "Some":
+        x = ev(strip(v[1])[1], env, n)
+        if isinstance(x, tuple) and x and x[0] == "Some":
+            return x[1]
+        raise NotBits("payload of %s" % show(v)[:120])
     if t == "app":
         name = v[1]
         args = v[2]
@@ -66,6 +71,14 @@ def ev(v, env, n):
             return {"Eq": a == b, "Ne": a != b, "Lt": a < b, "Le": a <= b, "Gt": a > b, "Ge": a >= b}[name]
         if name == "Not":
             return not ev(args[0], env, n)
+        if name == "discr" and len(args) == 1:
+            # discriminant of an Option computed from bitmaps (`match x.min() { Some(p) if .. }`): None = 0, Some = 1
+            x = ev(args[0], env, n)
+            if x is None:
+                return 0
+            if isinstance(x, tuple) and x and x[0] == "Some":
+                return 1
+            raise NotBits("discriminant of %s" % show(args[0])[:120])
         if name in ("BitAnd", "BitOr", "BitXor") and len(args) == 2:
             a, b = ev(args[0], env, n), ev(args[1], env, n)
             if isinstance(a, bool) and isinstance(b, bool):
